@@ -349,3 +349,99 @@ func ruleK1(p *Prog, r *Report) {
 }
 
 var _ = sort.Strings
+
+// K2 entry counts behind the collision limit: element.Count of a group is the number of
+// entries of its element list (delegation to elements.Count()), of a single element the
+// constant 1; elements.Count is the length of the receiver's own element slice.
+func ruleK2(p *Prog, r *Report) {
+	const R = "K2"
+	n := 0
+	elemI := p.LookupType("element")
+	groupI := p.LookupType("elementGroup")
+	elemsI := p.LookupType("elements")
+	if elemI == nil || groupI == nil || elemsI == nil {
+		r.Unk(R, "anchor:element-interfaces", "-", "element / elementGroup / elements interfaces not found")
+		return
+	}
+	gi, _ := groupI.Underlying().(*types.Interface)
+	ei, _ := elemI.Underlying().(*types.Interface)
+	li, _ := elemsI.Underlying().(*types.Interface)
+	for _, t := range p.ImplementersOf(ei) {
+		tn := typeName(t)
+		f := p.Method(tn, "Count")
+		cons := "element-count:" + tn
+		if f == nil {
+			r.Unk(R, cons, "-", "Count method not found")
+			continue
+		}
+		n++
+		isGroup := types.Implements(t, gi)
+		good := true
+		why := ""
+		for _, ret := range returnsOf(f) {
+			if c, _ := classifyReturn(ret); c != retSuccess {
+				continue
+			}
+			v := canonConv(ret.Results[0])
+			if isGroup {
+				c, ok := v.(*ssa.Call)
+				if !ok || calleeName(c) != "Count" || callRecv(c) == nil || !types.Implements(callRecv(c).Type(), li) && !types.Implements(types.NewPointer(callRecv(c).Type()), li) {
+					good = false
+					why = "a collision group's Count does not return the entry count of its element list"
+					continue
+				}
+				// the list is the receiver's own: its elements field or the result of its Elements()
+				src := canon(callRecv(c))
+				own := false
+				if lf, ok := asLoadedField(src); ok && sameValue(lf.Base, f.Params[0]) {
+					own = true
+				}
+				if ex, ok := src.(*ssa.Extract); ok {
+					if c2, ok := ex.Tuple.(*ssa.Call); ok && calleeName(c2) == "Elements" && callRecv(c2) != nil && sameValue(callRecv(c2), f.Params[0]) {
+						own = true
+					}
+				}
+				if !own {
+					good = false
+					why = "the counted element list is not the group's own"
+				}
+			} else {
+				if k, ok := constInt(v); !ok || k != 1 {
+					good = false
+					why = "a single element's Count is not the constant 1"
+				}
+			}
+		}
+		r.Decide(good, R, cons, p.Pos(f.Pos()), "Count reports the number of entries (group: its own element list's Count; single element: 1)", why+": the collision limit and the element statistics count entries through this method")
+	}
+	for _, t := range p.ImplementersOf(li) {
+		tn := typeName(t)
+		f := p.Method(tn, "Count")
+		cons := "elements-count:" + tn
+		if f == nil {
+			r.Unk(R, cons, "-", "Count method not found")
+			continue
+		}
+		n++
+		good := true
+		for _, ret := range returnsOf(f) {
+			v := canonConv(ret.Results[0])
+			c, ok := v.(*ssa.Call)
+			if !ok {
+				good = false
+				continue
+			}
+			bi, ok := c.Call.Value.(*ssa.Builtin)
+			if !ok || bi.Name() != "len" {
+				good = false
+				continue
+			}
+			lf, ok := asLoadedField(canon(c.Call.Args[0]))
+			if !ok || lf.Field != "elems" || !sameValue(lf.Base, f.Params[0]) {
+				good = false
+			}
+		}
+		r.Decide(good, R, cons, p.Pos(f.Pos()), "Count is the length of the receiver's element slice", "Count of an element list is not the length of its own element slice")
+	}
+	r.Floor(R, "Count implementations of elements and element lists", 5, n)
+}
